@@ -1,4 +1,5 @@
 """C20 — tnetstring serialisation round-trips and the streaming parser agrees with it."""
+from .util import distinct_keys
 import random
 
 import z3
@@ -642,7 +643,7 @@ def bounded(tier, seed):
         norm = lambda xs: [bytes(x) if isinstance(x, (bytes, bytearray)) else x for x in xs]
         if norm(got) != norm(want) and len(violations) < 8:
             violations.append(dict(key='tnet_from split at %r' % (k,), observed=repr(got)[:300], required=repr(want)[:300]))
-    return dict(evaluations=ev, distinct_nontrivial=len(distinct),
+    return dict(evaluations=ev, distinct_nontrivial=len(distinct), distinct_keys=distinct_keys(distinct),
                 rule='(a) seeded values (ints incl. > 64 bit, bools, None, bytes that look like prefixes/colons/type tags, multi-byte text, floats, nested lists and '
                      'string-keyed dicts to depth 3) x following data: parse(dump(v) + rest) == (v, rest) with equal types; (b) the real tnet_machine fed like '
                      'tnet_from for the types it supports, every two-way split and byte-at-a-time, followed by further data: same payload, terminal, '
